@@ -64,6 +64,10 @@ pub open spec fn spec_nullable(t: Type) -> Type {
 pub open spec fn spec_item(t: Type) -> Type {
     match t { Type::List(i) => *i, Type::NonNullList(i) => *i, t => t }
 }
+// the named type at the core of a type reference
+pub open spec fn spec_inner_name(t: Type) -> Name decreases t {
+    match t { Type::Named(n) => n, Type::NonNullNamed(n) => n, Type::List(i) => spec_inner_name(*i), Type::NonNullList(i) => spec_inner_name(*i) }
+}
 pub open spec fn size(t: Type) -> nat decreases t {
     match t { Type::Named(_) => 1, Type::NonNullNamed(_) => 2, Type::List(i) => 2 + size(*i), Type::NonNullList(i) => 3 + size(*i) }
 }
@@ -182,6 +186,7 @@ UNIT = {
         T("non_null", [("ensures", "non_null", "spec_non_null(r) && spec_nullable(r) == spec_nullable(self)")]),
         T("nullable", [("ensures", "nullable", "r == spec_nullable(self)")]),
         T("item_type", [("ensures", "item", "*r == spec_item(*self)")]),
+        T("inner_named_type", [("ensures", "inner_named_type", "*r == spec_inner_name(*self)"), ("decreases", None, "self")]),
         T("is_non_null", [("ensures", "is_non_null", "r == spec_non_null(*self)")]),
         T("is_list", [("ensures", "is_list", "r == spec_is_list(*self)")]),
         T("is_named", [("ensures", "is_named", "r == !spec_is_list(*self)")]),
